@@ -1,6 +1,6 @@
 (* C01 property theorems: statements only. *)
 From Coq Require Import List String Permutation Sorted.
-From PAFC01 Require Import ModelTree Sorting Proofs Proofs2 Proofs3 Proofs4 Proofs5 Proofs6.
+From PAFC01 Require Import ModelTree Sorting Proofs Proofs2 Proofs3 Proofs4 Proofs5 Proofs6 Proofs8.
 Import ListNotations.
 
 (* the advertised parameter order is strictly increasing in parameter id, has no repeats, lists
@@ -22,55 +22,55 @@ Theorem C01_ith_path : forall (V : Type) (n : node V) (i : nat) (dq : nat) (dp :
 Proof. exact ith_path. Qed.
 
 (* building an instance from a vector puts the i-th value at EVERY structural place of the i-th parameter *)
-Theorem C01_placement : forall (V : Type) (bin : binop -> V -> V -> V) (n : node V) (vec : list V)
+Theorem C01_placement : forall (V : Type) (bin : binop -> V -> V -> V) (un : unop -> V -> V) (n : node V) (vec : list V)
     (i : nat) (p : path) (dq : nat) (dv : V),
   List.length vec = prior_count V n -> i < prior_count V n ->
   node_at V p n = Some (NPrior (nth i (ordered_ids V n) dq)) ->
-  lookup V p (inst_from_vector V bin n vec) = Some (IV (nth i vec dv)).
+  lookup V p (inst_from_vector V bin un n vec) = Some (IV (nth i vec dv)).
 Proof. exact vector_placement. Qed.
 
 (* whatever sits at a structural path of the model is what the instance holds at that path *)
-Theorem C01_structure : forall (V : Type) (bin : binop -> V -> V -> V) (args : nat -> option V)
+Theorem C01_structure : forall (V : Type) (bin : binop -> V -> V -> V) (un : unop -> V -> V) (args : nat -> option V)
     (p : path) (n c : node V),
-  node_at V p n = Some c -> lookup V p (inst V bin args n) = Some (inst V bin args c).
+  node_at V p n = Some c -> lookup V p (inst V bin un args n) = Some (inst V bin un args c).
 Proof. exact lookup_inst. Qed.
 
 (* fixed values are untouched *)
-Theorem C01_fixed : forall (V : Type) (bin : binop -> V -> V -> V) (args : nat -> option V)
+Theorem C01_fixed : forall (V : Type) (bin : binop -> V -> V -> V) (un : unop -> V -> V) (args : nat -> option V)
     (n : node V) (p : path) (v : V),
-  node_at V p n = Some (NConst v) -> lookup V p (inst V bin args n) = Some (IV v).
+  node_at V p n = Some (NConst v) -> lookup V p (inst V bin un args n) = Some (IV v).
 Proof. exact fixed_untouched. Qed.
 
 (* derived (arithmetic) parameters are computed from the same assignment of values *)
-Theorem C01_derived : forall (V : Type) (bin : binop -> V -> V -> V) (args : nat -> option V)
+Theorem C01_derived : forall (V : Type) (bin : binop -> V -> V -> V) (un : unop -> V -> V) (args : nat -> option V)
     (n : node V) (p : path) (c : node V) (v : V),
-  node_at V p n = Some c -> eval V bin args c = Some v -> lookup V p (inst V bin args n) = Some (IV v).
+  node_at V p n = Some c -> eval V bin un args c = Some v -> lookup V p (inst V bin un args n) = Some (IV v).
 Proof. exact derived_value. Qed.
 
 (* tuple parameters: a tuple whose members hold positions 0..k-1 (in any attribute order) is built
    with the member of position i at index i *)
-Theorem C01_tuple : forall (V : Type) (bin : binop -> V -> V -> V) (args : nat -> option V)
+Theorem C01_tuple : forall (V : Type) (bin : binop -> V -> V -> V) (un : unop -> V -> V) (args : nat -> option V)
     (ms : list (string * (nat * node V))) (nm : string) (i : nat) (c : node V),
   Permutation (map (fun m => fst (snd m)) ms) (seq 0 (List.length ms)) ->
   In (nm, (i, c)) ms ->
-  exists vs, inst V bin args (NTuple ms) = ITup vs /\ List.length vs = List.length ms /\
-             nth i vs IMissing = inst V bin args c.
+  exists vs, inst V bin un args (NTuple ms) = ITup vs /\ List.length vs = List.length ms /\
+             nth i vs IMissing = inst V bin un args c.
 Proof. exact tuple_in_position_order. Qed.
 
 (* supplying the values by path (one path per parameter, as advertised) gives the same instance as
    supplying them as a physical vector; the unit-vector route is the vector route applied to the
    values the priors return (instance_from_unit_vector builds the same {prior: value} dictionary) *)
-Theorem C01_routes : forall (V : Type) (bin : binop -> V -> V -> V) (n : node V) (vec : list V),
+Theorem C01_routes : forall (V : Type) (bin : binop -> V -> V -> V) (un : unop -> V -> V) (n : node V) (vec : list V),
   wf V n -> List.length vec = prior_count V n ->
-  inst_from_paths V bin n (combine (unique_prior_paths V n) vec) = inst_from_vector V bin n vec.
+  inst_from_paths V bin un n (combine (unique_prior_paths V n) vec) = inst_from_vector V bin un n vec.
 Proof. exact path_route. Qed.
 
 (* the same with the boolean, machine-checkable form of the hypothesis (the harness evaluates wfb on
    every generated model and reports how many satisfy it) *)
-Theorem C01_routes_checkable : forall (V : Type) (bin : binop -> V -> V -> V) (n : node V) (vec : list V),
+Theorem C01_routes_checkable : forall (V : Type) (bin : binop -> V -> V -> V) (un : unop -> V -> V) (n : node V) (vec : list V),
   wfb V n = true -> List.length vec = prior_count V n ->
-  inst_from_paths V bin n (combine (unique_prior_paths V n) vec) = inst_from_vector V bin n vec.
-Proof. exact (fun V bin n vec H => path_route V bin n vec (wfb_sound V n H)). Qed.
+  inst_from_paths V bin un n (combine (unique_prior_paths V n) vec) = inst_from_vector V bin un n vec.
+Proof. exact (fun V bin un n vec H => path_route V bin un n vec (wfb_sound V n H)). Qed.
 
 (* every advertised path resolves to the parameter it is advertised for *)
 Theorem C01_paths_resolve : forall (V : Type) (n : node V), wf V n ->
@@ -81,23 +81,23 @@ Proof. exact walk_prior_at. Qed.
    wf2 = dictionary keys distinct at every level, and the two operand attributes of an arithmetic prior
    have different names unless they are the same object (p * p).  When the i-th advertised path goes
    through Model / Collection attributes only, looking it up in the built instance gives the i-th value *)
-Theorem C01_ith_value : forall (V : Type) (bin : binop -> V -> V -> V) (n : node V) (vec : list V)
+Theorem C01_ith_value : forall (V : Type) (bin : binop -> V -> V -> V) (un : unop -> V -> V) (n : node V) (vec : list V)
     (i : nat) (dp : path) (dv : V),
   wf2 V n -> List.length vec = prior_count V n -> i < prior_count V n ->
   node_at V (nth i (unique_prior_paths V n) dp) n <> None ->
-  lookup V (nth i (unique_prior_paths V n) dp) (inst_from_vector V bin n vec) = Some (IV (nth i vec dv)).
+  lookup V (nth i (unique_prior_paths V n) dp) (inst_from_vector V bin un n vec) = Some (IV (nth i vec dv)).
 Proof. exact ith_value. Qed.
 
 (* ... when it ends in the member k (position j) of a tuple parameter, the tuple built at the parent path
    has the i-th value at index j *)
-Theorem C01_ith_value_tuple : forall (V : Type) (bin : binop -> V -> V -> V) (n : node V) (vec : list V)
+Theorem C01_ith_value_tuple : forall (V : Type) (bin : binop -> V -> V -> V) (un : unop -> V -> V) (n : node V) (vec : list V)
     (i : nat) (dp : path) (dv : V) (p1 : path) (k : string) (ms : list (string * (nat * node V))) (j : nat) (c : node V),
   wf2 V n -> List.length vec = prior_count V n -> i < prior_count V n ->
   nth i (unique_prior_paths V n) dp = p1 ++ [k] ->
   node_at V p1 n = Some (NTuple ms) ->
   Permutation (map (fun m => fst (snd m)) ms) (seq 0 (List.length ms)) ->
   In (k, (j, c)) ms ->
-  exists vs, lookup V p1 (inst_from_vector V bin n vec) = Some (ITup vs) /\
+  exists vs, lookup V p1 (inst_from_vector V bin un n vec) = Some (ITup vs) /\
   List.length vs = List.length ms /\ nth j vs IMissing = IV (nth i vec dv).
 Proof. exact ith_value_tuple. Qed.
 
@@ -123,26 +123,26 @@ Theorem C01_paths_resolve2 : forall (V : Type) (n : node V), wf2 V n ->
 Proof. exact paths_resolve. Qed.
 
 (* routes under the weaker hypothesis (models containing p * p are covered) *)
-Theorem C01_routes2 : forall (V : Type) (bin : binop -> V -> V -> V) (n : node V) (vec : list V),
+Theorem C01_routes2 : forall (V : Type) (bin : binop -> V -> V -> V) (un : unop -> V -> V) (n : node V) (vec : list V),
   wf2 V n -> List.length vec = prior_count V n ->
-  inst_from_paths V bin n (combine (unique_prior_paths V n) vec) = inst_from_vector V bin n vec.
+  inst_from_paths V bin un n (combine (unique_prior_paths V n) vec) = inst_from_vector V bin un n vec.
 Proof. exact path_route2. Qed.
 
 Theorem C01_routes2_checkable : forall (V : Type) (veqb : V -> V -> bool),
   (forall a b, veqb a b = true -> a = b) ->
-  forall (bin : binop -> V -> V -> V) (n : node V) (vec : list V),
+  forall (bin : binop -> V -> V -> V) (un : unop -> V -> V) (n : node V) (vec : list V),
   wfb2 V veqb n = true -> List.length vec = prior_count V n ->
-  inst_from_paths V bin n (combine (unique_prior_paths V n) vec) = inst_from_vector V bin n vec.
-Proof. exact (fun V veqb S bin n vec H => path_route2 V bin n vec (wfb2_sound V veqb S n H)). Qed.
+  inst_from_paths V bin un n (combine (unique_prior_paths V n) vec) = inst_from_vector V bin un n vec.
+Proof. exact (fun V veqb S bin un n vec H => path_route2 V bin un n vec (wfb2_sound V veqb S n H)). Qed.
 
 (* values supplied by ANY paths (any of the paths of a shared parameter, in any order, several paths per
    parameter): the instance is the vector instance as soon as the path dictionary assigns the i-th value to
    the i-th parameter; and the LAST entry resolving to a parameter is the one that counts *)
-Theorem C01_routes_any_paths : forall (V : Type) (bin : binop -> V -> V -> V) (n : node V)
+Theorem C01_routes_any_paths : forall (V : Type) (bin : binop -> V -> V -> V) (un : unop -> V -> V) (n : node V)
     (pv : list (path * V)) (vec : list V),
   wf2 V n -> List.length vec = prior_count V n ->
   (forall i, i < prior_count V n -> path_args V n pv (nth i (ordered_ids V n) 0) = nth_error vec i) ->
-  inst_from_paths V bin n pv = inst_from_vector V bin n vec.
+  inst_from_paths V bin un n pv = inst_from_vector V bin un n vec.
 Proof. exact path_route_gen. Qed.
 
 Theorem C01_path_last_wins : forall (V : Type) (n : node V) (pv1 pv2 : list (path * V)) (p : path) (v : V) (q : nat),
@@ -151,57 +151,57 @@ Theorem C01_path_last_wins : forall (V : Type) (n : node V) (pv1 pv2 : list (pat
   path_args V n (pv1 ++ (p, v) :: pv2) q = Some v.
 Proof. exact path_args_last. Qed.
 
-Theorem C01_routes_chosen_paths : forall (V : Type) (bin : binop -> V -> V -> V) (n : node V)
+Theorem C01_routes_chosen_paths : forall (V : Type) (bin : binop -> V -> V -> V) (un : unop -> V -> V) (n : node V)
     (ps : list path) (vec : list V),
   wf2 V n -> List.length vec = prior_count V n -> List.length ps = prior_count V n ->
   (forall j dp, j < prior_count V n -> prior_at V (nth j ps dp) n = Some (nth j (ordered_ids V n) 0)) ->
-  inst_from_paths V bin n (combine ps vec) = inst_from_vector V bin n vec.
+  inst_from_paths V bin un n (combine ps vec) = inst_from_vector V bin un n vec.
 Proof. exact path_route_chosen. Qed.
 
 (* frame: two vectors that differ only in entry i build instances that agree at every structural place
    whose sub-model does not contain parameter i ("leaves everything else untouched") *)
-Theorem C01_frame : forall (V : Type) (bin : binop -> V -> V -> V) (n c : node V) (p : path)
+Theorem C01_frame : forall (V : Type) (bin : binop -> V -> V -> V) (un : unop -> V -> V) (n c : node V) (p : path)
     (vec vec' : list V) (i : nat),
   wf2 V n -> List.length vec = prior_count V n -> List.length vec' = prior_count V n ->
   (forall j, j <> i -> nth_error vec j = nth_error vec' j) ->
   node_at V p n = Some c -> ~ In (nth i (ordered_ids V n) 0) (prior_ids V c) ->
-  lookup V p (inst_from_vector V bin n vec) = lookup V p (inst_from_vector V bin n vec').
+  lookup V p (inst_from_vector V bin un n vec) = lookup V p (inst_from_vector V bin un n vec').
 Proof. exact frame. Qed.
 
 (* an instance depends only on the values given to the model's own parameters *)
-Theorem C01_inst_ext : forall (V : Type) (bin : binop -> V -> V -> V) (a1 a2 : nat -> option V) (n : node V),
-  wf2 V n -> (forall q, In q (prior_ids V n) -> a1 q = a2 q) -> inst V bin a1 n = inst V bin a2 n.
+Theorem C01_inst_ext : forall (V : Type) (bin : binop -> V -> V -> V) (un : unop -> V -> V) (a1 a2 : nat -> option V) (n : node V),
+  wf2 V n -> (forall q, In q (prior_ids V n) -> a1 q = a2 q) -> inst V bin un a1 n = inst V bin un a2 n.
 Proof. exact inst_ext2. Qed.
 
 (* unit-vector route (value_for q u = what prior q returns for unit value u): it is the vector route applied
    to vector_from_unit_vector, and the i-th unit value pushed through the i-th prior is found at every
    structural place of parameter i *)
-Theorem C01_unit_route : forall (V : Type) (bin : binop -> V -> V -> V) (value_for : nat -> V -> V)
+Theorem C01_unit_route : forall (V : Type) (bin : binop -> V -> V -> V) (un : unop -> V -> V) (value_for : nat -> V -> V)
     (n : node V) (u : list V),
-  inst_from_unit V bin value_for n u = inst_from_vector V bin n (vec_from_unit V value_for n u) /\
+  inst_from_unit V bin un value_for n u = inst_from_vector V bin un n (vec_from_unit V value_for n u) /\
   (List.length u = prior_count V n -> List.length (vec_from_unit V value_for n u) = prior_count V n).
 Proof.
-  exact (fun V bin vf n u => conj (unit_route V bin vf n u)
+  exact (fun V bin un vf n u => conj (unit_route V bin un vf n u)
            (fun L => eq_trans (vmap2_length V vf (ordered_ids V n) u (eq_trans L (eq_sym (ordered_ids_length V n))))
                               (ordered_ids_length V n))).
 Qed.
 
-Theorem C01_unit_placement : forall (V : Type) (bin : binop -> V -> V -> V) (value_for : nat -> V -> V)
+Theorem C01_unit_placement : forall (V : Type) (bin : binop -> V -> V -> V) (un : unop -> V -> V) (value_for : nat -> V -> V)
     (n : node V) (u : list V) (i : nat) (p : path) (dv : V),
   List.length u = prior_count V n -> i < prior_count V n ->
   node_at V p n = Some (NPrior (nth i (ordered_ids V n) 0)) ->
-  lookup V p (inst_from_unit V bin value_for n u) = Some (IV (value_for (nth i (ordered_ids V n) 0) (nth i u dv))).
+  lookup V p (inst_from_unit V bin un value_for n u) = Some (IV (value_for (nth i (ordered_ids V n) 0) (nth i u dv))).
 Proof. exact unit_placement. Qed.
 
 (* tuple members of every kind (parameter, float or int constant, arithmetic on parameters) are kept and
    evaluated: the tuple has one component per member and the component at a member's position is the value of
    its expression (former finding arith-member-in-tuple / int-const-in-tuple, repaired by /repo 7acf0fe; the
    legacy behaviour is refuted in Witness.tuple_arith_member_legacy_refuted) *)
-Theorem C01_tuple_member_derived : forall (V : Type) (bin : binop -> V -> V -> V) (args : nat -> option V)
+Theorem C01_tuple_member_derived : forall (V : Type) (bin : binop -> V -> V -> V) (un : unop -> V -> V) (args : nat -> option V)
     (ms : list (string * (nat * node V))) (nm : string) (i : nat) (c : node V) (v : V),
   Permutation (map (fun m => fst (snd m)) ms) (seq 0 (List.length ms)) ->
-  In (nm, (i, c)) ms -> eval V bin args c = Some v ->
-  exists vs, inst V bin args (NTuple ms) = ITup vs /\ List.length vs = List.length ms /\
+  In (nm, (i, c)) ms -> eval V bin un args c = Some v ->
+  exists vs, inst V bin un args (NTuple ms) = ITup vs /\ List.length vs = List.length ms /\
              nth i vs IMissing = IV v.
 Proof. exact tuple_member_derived. Qed.
 
@@ -209,22 +209,84 @@ Proof. exact tuple_member_derived. Qed.
    name k of an item continues inside that item -- for the parameter a supplied value goes to (object_for_path),
    for the sub-model found there and for the value found in every built instance.  An item named "0" is not "the
    first item" (Collection(main=..).append(..); c[1] = ..; c[0] = ..; a list after remove()) *)
-Theorem C01_item_by_name : forall (V : Type) (bin : binop -> V -> V -> V) (attrs : list (string * node V))
+Theorem C01_item_by_name : forall (V : Type) (bin : binop -> V -> V -> V) (un : unop -> V -> V) (attrs : list (string * node V))
     (k : string) (c : node V) (p' : path),
   NoDup (map fst attrs) -> In (k, c) attrs ->
   prior_at V (k :: p') (NColl attrs) = prior_at V p' c /\
   node_at V (k :: p') (NColl attrs) = node_at V p' c /\
-  forall args, lookup V (k :: p') (inst V bin args (NColl attrs)) = lookup V p' (inst V bin args c).
+  forall args, lookup V (k :: p') (inst V bin un args (NColl attrs)) = lookup V p' (inst V bin un args c).
 Proof. exact item_by_name. Qed.
 
 (* ... hence the ORDER of the items of a collection is irrelevant for everything that is addressed by a path *)
-Theorem C01_item_order_irrelevant : forall (V : Type) (bin : binop -> V -> V -> V)
+Theorem C01_item_order_irrelevant : forall (V : Type) (bin : binop -> V -> V -> V) (un : unop -> V -> V)
     (attrs attrs' : list (string * node V)) (k : string) (p' : path),
   NoDup (map fst attrs) -> Permutation attrs attrs' ->
   prior_at V (k :: p') (NColl attrs) = prior_at V (k :: p') (NColl attrs') /\
   node_at V (k :: p') (NColl attrs) = node_at V (k :: p') (NColl attrs') /\
-  forall args, lookup V (k :: p') (inst V bin args (NColl attrs)) = lookup V (k :: p') (inst V bin args (NColl attrs')).
+  forall args, lookup V (k :: p') (inst V bin un args (NColl attrs)) = lookup V (k :: p') (inst V bin un args (NColl attrs')).
 Proof. exact item_order_irrelevant. Qed.
+(* ---------- the unary node: ModifiedPrior (-p, abs(p)) ---------- *)
+(* a unary node contributes exactly its operand's parameters: same identities, same advertised order, same
+   count; every path is the operand's path behind the operand's attribute name *)
+Theorem C01_unary_order : forall (V : Type) (o : unop) (nm : string) (c : node V),
+  walk V (NUn o nm c) = prefix_paths nm (walk V c) /\
+  prior_ids V (NUn o nm c) = prior_ids V c /\
+  ordered_ids V (NUn o nm c) = ordered_ids V c /\
+  prior_count V (NUn o nm c) = prior_count V c /\
+  paths V (NUn o nm c) = map (cons nm) (paths V c) /\
+  unique_prior_paths V (NUn o nm c) = map (cons nm) (unique_prior_paths V c).
+Proof. exact unary_order. Qed.
+
+(* its value, wherever it sits structurally in a model, is the operator applied to the operand's value under
+   the SAME assignment; when the operand has no value the unary node has none *)
+Theorem C01_unary_value : forall (V : Type) (bin : binop -> V -> V -> V) (un : unop -> V -> V)
+    (args : nat -> option V) (n : node V) (p : path) (o : unop) (nm : string) (c : node V),
+  node_at V p n = Some (NUn o nm c) -> is_const V c = false ->
+  (forall a, inst V bin un args c = IV a -> lookup V p (inst V bin un args n) = Some (IV (un o a))) /\
+  ((forall a, inst V bin un args c <> IV a) -> lookup V p (inst V bin un args n) = Some IMissing).
+Proof. exact unary_value. Qed.
+
+(* the i-th vector entry reaches a unary node whose operand is the i-th parameter as op(v_i) *)
+Theorem C01_unary_of_ith_value : forall (V : Type) (bin : binop -> V -> V -> V) (un : unop -> V -> V)
+    (n : node V) (vec : list V) (i : nat) (p : path) (o : unop) (nm : string) (dv : V),
+  List.length vec = prior_count V n -> i < prior_count V n ->
+  node_at V p n = Some (NUn o nm (NPrior (nth i (ordered_ids V n) 0))) ->
+  lookup V p (inst_from_vector V bin un n vec) = Some (IV (un o (nth i vec dv))).
+Proof. exact unary_of_ith_value. Qed.
+
+(* subtraction as the API builds it (ArithmeticMixin.__sub__: a - b = SumPrior(a, NegativePrior(b))) *)
+Theorem C01_subtraction : forall (V : Type) (bin : binop -> V -> V -> V) (un : unop -> V -> V)
+    (args : nat -> option V) (ln rn nm : string) (l r : node V) (a b : V),
+  eval V bin un args l = Some a -> eval V bin un args r = Some b -> is_const V r = false ->
+  inst V bin un args (NBin OAdd ln rn l (NUn UNeg nm r)) = IV (bin OAdd a (un UNeg b)) /\
+  (ln <> rn -> walk V (NBin OAdd ln rn l (NUn UNeg nm r))
+               = prefix_paths ln (walk V l) ++ prefix_paths rn (prefix_paths nm (walk V r))).
+Proof. exact subtraction_as_built. Qed.
+
+(* object_for_path below a unary node; a unary form of a float has no value (the code raises) *)
+Theorem C01_unary_prior_at : forall (V : Type) (o : unop) (nm k : string) (c : node V) (p : path),
+  prior_at V (k :: p) (NUn o nm c) = if String.eqb k nm then prior_at V p c else None.
+Proof. exact unary_prior_at. Qed.
+
+Theorem C01_unary_of_constant_raises : forall (V : Type) (bin : binop -> V -> V -> V) (un : unop -> V -> V)
+    (args : nat -> option V) (o : unop) (nm : string) (v : V),
+  inst V bin un args (NUn o nm (NConst v)) = IMissing.
+Proof. exact unary_of_constant_raises. Qed.
+
+(* ---------- the arithmetic forms // and % (FloorDivPrior, ModPrior): exact meaning over the rationals ----------
+   floor division and the remainder with the sign of the DIVISOR (Python), not of the dividend (C fmod);
+   a - b as built by the API (a + (-b)) is a - b *)
+From Coq Require Import QArith.
+From PAFC01 Require Import Proofs7.
+Theorem C01_mod_floordiv_Q : forall a b : Q,
+  ~ b == 0 ->
+  a == b * qbin OFloorDiv a b + qbin OMod a b /\
+  (0 < b -> 0 <= qbin OMod a b /\ qbin OMod a b < b) /\
+  (b < 0 -> b < qbin OMod a b /\ qbin OMod a b <= 0).
+Proof. exact mod_floordiv_Q. Qed.
+
+Theorem C01_sub_as_built_Q : forall a b : Q, qbin OAdd a (qun UNeg b) == qbin OSub a b.
+Proof. exact sub_as_built_Q. Qed.
 
 Print Assumptions C01_order.
 Print Assumptions C01_routes.
@@ -237,5 +299,13 @@ Print Assumptions C01_routes_any_paths.
 Print Assumptions C01_frame.
 Print Assumptions C01_unit_placement.
 Print Assumptions C01_tuple_member_derived.
+Print Assumptions C01_unary_order.
+Print Assumptions C01_unary_value.
+Print Assumptions C01_unary_of_ith_value.
+Print Assumptions C01_subtraction.
+Print Assumptions C01_unary_prior_at.
+Print Assumptions C01_unary_of_constant_raises.
+Print Assumptions C01_mod_floordiv_Q.
+Print Assumptions C01_sub_as_built_Q.
 Print Assumptions C01_item_by_name.
 Print Assumptions C01_item_order_irrelevant.
